@@ -19,7 +19,8 @@ def cases(rng, tier):
         yield rvasmgen.asm_case(rng, fault_prob=0.25)
     # by-name access pairs (the same pseudo-instruction wherever it occurs, whatever came before it), comments with several '#'
     import props.c05 as c05
-    for c5 in c05.byname_sequences(rng):
+    import itertools
+    for c5 in itertools.chain(c05.byname_sequences(rng), c05.split_boundary_cases(rng)):
         yield Case("asm", [f"asm {rvasmgen.hx(c5.meta['text'])}"], None, {"text": c5.meta["text"], "kind": "valid", "abstract": c5.meta["abstract"]})
     for i in range(12 if tier == "quick" else 200):
         items, decls = rvasmgen.gen_abstract(rng)
